@@ -172,12 +172,74 @@ def machineWith (c : Checks) (m : Machine) : Bool :=
   else if m.states.length > STATE_MAX then false
   else m.states.all (stateWith c m.states.length)
 
-def transLoop (numStates : Nat) : List Trans → List Nat → FV → Option FV := transLoopWith checks numStates
-def transVec (numStates : Nat) (ts : List Trans) : Bool := transVecWith checks numStates ts
-/-- `State::validate` as the code is today -/
-def state (numStates : Nat) (s : State) : Bool := stateWith checks numStates s
-/-- `Machine::validate` as the code is today -/
-def machine (m : Machine) : Bool := machineWith checks m
+/-! ### The code as it is today
+
+Written out directly (through `fracBad`, `probBad`, `sumBad`) so that proofs can unfold them
+step by step; `machine_eq_with` ties them to the parametrised model above. -/
+
+/-- the per-vector loop of `State::validate`: returns the f32 sum, or `none` on error -/
+def transLoop (numStates : Nat) : List Trans → List Nat → FV → Option FV
+  | [], _, sum => some sum
+  | t :: ts, seen, sum =>
+    if t.target ≥ numStates && t.target != STATE_END && t.target != STATE_SIGNAL then none
+    else if seen.contains t.target then none
+    else
+      let p := val32 t.prob
+      if probBad p then none
+      else transLoop numStates ts (t.target :: seen) (add f32 sum p)
+
+def transVec (numStates : Nat) (ts : List Trans) : Bool :=
+  match transLoop numStates ts [] zero with
+  | none => false
+  | some sum => !(sumBad sum)
+
+/-- `State::validate` -/
+def state (numStates : Nat) (s : State) : Bool :=
+  s.transitions.all (fun v => match v with
+    | none => true
+    | some ts => transVec numStates ts)
+  && (match s.action with | none => true | some a => action a)
+  && (match s.counterA with | none => true | some c => counter c)
+  && (match s.counterB with | none => true | some c => counter c)
+
+/-- `Machine::validate` -/
+def machine (m : Machine) : Bool :=
+  let pf := val64 m.maxPaddingFrac
+  let bf := val64 m.maxBlockingFrac
+  if fracBad pf then false
+  else if fracBad bf then false
+  else if m.states.length == 0 then false
+  else if m.states.length > STATE_MAX then false
+  else m.states.all (state m.states.length)
+
+theorem transLoop_eq_with (n : Nat) : ∀ (ts : List Trans) (seen : List Nat) (sum : FV),
+    transLoop n ts seen sum = transLoopWith checks n ts seen sum := by
+  intro ts
+  induction ts with
+  | nil => intro _ _; rfl
+  | cons t ts ih =>
+    intro seen sum
+    simp only [transLoop, transLoopWith, ih]
+    rfl
+
+theorem transVec_eq_with (n : Nat) (ts : List Trans) : transVec n ts = transVecWith checks n ts := by
+  unfold transVec transVecWith
+  rw [transLoop_eq_with]
+  rfl
+
+theorem state_eq_with (n : Nat) : state n = stateWith checks n := by
+  funext s
+  unfold state stateWith
+  have : (fun v : Option (List Trans) => match v with | none => true | some ts => transVec n ts) =
+      (fun v => match v with | none => true | some ts => transVecWith checks n ts) := by
+    funext v; cases v <;> simp [transVec_eq_with]
+  rw [this]
+
+/-- today's `Machine::validate` is the parametrised model at today's range tests -/
+theorem machine_eq_with (m : Machine) : machine m = machineWith checks m := by
+  unfold machine machineWith
+  rw [state_eq_with]
+  rfl
 
 /-- `(0.0..=1.0).contains(&x)` -/
 def fracOK (x : F64) : Bool := le zero (val64 x) && le (val64 x) one
